@@ -12,6 +12,9 @@
 (*           polygons): everything fixed point (scale chosen per record); hits[k] = the   *)
 (*           ordinates of all polygon edges spanning abscissa xs[k], interpolated by the  *)
 (*           driver; for steps = None / int the abscissae are taken from the result.      *)
+(*  "cover"  the coordinate dtypes (IntersectOps!CoordTypes) of the typed "isect" / "dcf"  *)
+(*           executions of this run (the records themselves are judged like all others:    *)
+(*           the expectation never depends on the dtype)                                    *)
 EXTENDS IntersectOps, DesignCondOps, Json, IOUtils, TLC
 
 TraceLog == ndJsonDeserialize(IOEnv.TRACE_FILE)
@@ -134,7 +137,10 @@ DcfClauses(r) ==
     <<"SwapIsExchange", r.swap => SameObserved(r.rx, r.ry, r.rx2, r.ry2)>>
   >>
 
+CoverClauses(r) == << <<"CoordTypesCovered", Range(r.isect) = CoordTypes /\ Range(r.dcf) = CoordTypes>> >>
+
 Clauses(r) == CASE r.kind = "isect" -> IsectClauses(r)
+                [] r.kind = "cover" -> CoverClauses(r)
                 [] r.kind = "dcl" -> DclClauses(r)
                 [] OTHER -> DcfClauses(r)
 Verdict(r) == Failing(Clauses(r))
